@@ -49,6 +49,24 @@ SEEDS = {
  "C18-B": ("order.group(unknown, str_nan) dedented out of the loop over unknown values", "unknown_handling='drop' with two or more distinct unknown values"),
  "C19-A": ("index check becomes all(y.index.isin(X.index))", "a target with the same index labels as X in another order (shuffled, not re-indexed)"),
  "C19-B": ("BinaryCarver target check becomes all(v in (0,1))", "a single-class 0/1 target"),
+ # round 3: one more change per property, written after the checks had been strengthened on rounds 1-2 (independent test)
+ "C01-C": ("xagg_apply_order groups without sort=False: the missing-value search sees groups in alphabetical order", "dropna=True, missing values, >= 3 groups after the first search and an exact rate tie between groups that are alphabetical but not order neighbours"),
+ "C02-C": ("MulticlassCarver.fit no longer forwards min_freq_mod to its BinaryCarvers", "MulticlassCarver with min_freq_mod > min_freq/2 and a class whose best grouping has a label in between"),
+ "C03-C": ("target_rate rounds the per-modality mean to 4 decimals before sorting", "categorical feature whose modality rates differ by less than 1e-4 (continuous target of small magnitude)"),
+ "C04-C": ("_transform_quantitative builds DataFrame(dict(all_transformed)) without index=X.index", "frame whose index is not 0..n-1"),
+ "C05-C": ("transform_quantitative_feature skips the comparison with the last quantile but keeps the old 'any mask' guard", "quantitative feature fitted with a single bucket: raw numbers are returned"),
+ "C06-C": ("summary() hides raw numeric values with isinstance(value, (float, int))", "qualitative feature fitted on an integer-dtype / float32 column: numpy scalars are listed before the round trip, hidden after it"),
+ "C07-C": ("Discretizer.fit fits the qualitative sub-pipeline on the caller's X instead of the prepared copy", "Discretizer(copy=True) with a numeric-valued qualitative column holding NaN: caller's column overwritten"),
+ "C08-C": ("BaseCarver.fit removes dropped features while iterating self.features", "two or more identifier-like qualitative columns dropped by the Discretizer in one carver fit: KeyError"),
+ "C09-C": ("min_value_counts drops fillna(0) and uses a NaN-skipping min", "a quantile bucket holding no training row (spike at the maximum): empty bucket kept"),
+ "C10-C": ("ChainedDiscretizer.fit replaces rare modalities over the whole frame instead of one column", "two chained features, a modality rare in one and frequent in the other"),
+ "C11-C": ("format_quantiles stops adding digits at 6 decimals", "exact affine map with a large offset-to-spread ratio (x + 2^20 on a 2^-10 grid)"),
+ "C12-C": ("MulticlassCarver.__init__ no longer forwards min_freq_mod to BaseCarver", "explicit min_freq_mod different from min_freq/2"),
+ "C14-C": ("per-measure re-ranking sorts by the whole list of measure names", "two association measures evaluated for one feature type that rank the features differently"),
+ "C16-C": ("history(feature) selects rows with a substring test on the feature name", "two carved features, one name containing the other"),
+ "C17-C": ("update_discretizer recomputes labels_per_values only for mode='group'", "a 'replace' edit: labels, summary and the reloaded object disagree"),
+ "C18-C": ("all features without a provided order share one GroupedList in ChainedDiscretizer.__init__", "two or more chained features without values_orders"),
+ "C19-C": ("string check in _transform_quantitative uses infer_dtype in ('string','mixed')", "integer-valued quantitative column (no NaN) receiving a string at transform / in X_dev: UFuncTypeError"),
 }
 
 
